@@ -33,6 +33,12 @@ func (n *ThreadedNewsYAML) CreateGrouping(newsPath []string, name string, t [2]b
 	defer n.mu.Unlock()
 
 	cats := n.getCatByPath(newsPath)
+
+	// Creating an item under a name that is taken must not replace the existing bundle or category and its articles.
+	if _, ok := cats[name]; ok {
+		return fmt.Errorf("news item %q already exists", name)
+	}
+
 	cats[name] = hotline.NewsCategoryListData15{
 		Name:     name,
 		Type:     t,
